@@ -13,7 +13,10 @@ PROPERTY = dict(
                 "division / sqrt / arccos on every path is defined (a satisfiable obligation is a NaN/inf witness), no "
                 "exception, output of unit norm (RR^T = I for matrices); plus N = 3 batch runs for the shape clause. One step "
                 "from an arbitrary valid state covers histories of any length provided the post-state is valid, which is itself "
-                "an obligation.",
+                "an obligation. Batch constructors (Mahony, Fourati, AQUA, Tilt, FQA, TRIAD, OLEQ) are run over N = 2 samples at exact "
+                "rational poses (level, level with heading, upside down, upside down with heading; pitched and generic in the "
+                "thorough tier) with symbolic sensor scales, so that the special-case branches of the initial-attitude code "
+                "(half-turns, zero roll/pitch) are taken exactly: one finite unit quaternion per sample.",
     bounds="one step from an arbitrary valid state; N <= 3 for constructors; OLEQ loop bound 3; QUEST / FLAE-newton in the "
            "thorough tier with their syntactic iteration caps; UKF: first step from the default covariance only",
     outside=["positive-definiteness of propagated covariances (EKF 6x6 inverse and UKF Cholesky are contracts)",
